@@ -129,10 +129,11 @@ AUX_MODULE = "verif_aux_model"
 AUX_SOURCE = '''"""auxiliary mapped classes of the krrood verification harness (generated file)"""
 from __future__ import annotations
 
+import enum
 from dataclasses import dataclass, field
 from types import FunctionType
 
-from typing_extensions import List, Optional
+from typing_extensions import List, Optional, Type
 
 import verif_aux_geometry
 import verif_aux_storage
@@ -380,6 +381,36 @@ class AuxKit:
     main: Optional[AuxGadget] = None
 
 
+# scalar columns of every kind, each also Optional: None must stay None and a FALSY value (0, 0.0, "", False, the
+# enumeration member with value 0, an empty list) must stay itself -- `is None` tests, never truthiness tests
+class AuxMode(enum.IntEnum):
+    OFF = 0
+    ON = 1
+    AUTO = 2
+
+
+@dataclass
+class AuxSwitch:
+    label: str
+    enabled: bool
+    level: int
+    gain: float
+    mode: AuxMode
+    frame_type: Type[AuxFrame]
+    opt_label: Optional[str] = None
+    opt_enabled: Optional[bool] = None
+    opt_level: Optional[int] = None
+    opt_gain: Optional[float] = None
+    opt_mode: Optional[AuxMode] = None
+    notes: List[str] = field(default_factory=list)
+
+
+@dataclass
+class AuxPanel:
+    switches: List[AuxSwitch] = field(default_factory=list)
+    master: Optional[AuxSwitch] = None
+
+
 # JSON columns whose value classes have the same simple name in two modules
 @dataclass
 class AuxShelf:
@@ -428,7 +459,7 @@ class Box(SubclassJSONSerializer):
 AUX_CLASSES = ["AuxPoint", "AuxPolyline", "AuxDrawing", "AuxWaypoint", "AuxTrajectory", "AuxMission", "AuxSchedule",
                "AuxFrame", "AuxTag", "AuxSensor", "AuxCamera", "AuxRig", "AuxJob", "AuxPipeline",
                "AuxDevice", "AuxScanner", "AuxTurboScanner", "AuxWorkbench",  # NOT AuxCalibrated, AuxTuned
-               "AuxStereoCamera", "AuxGadget", "AuxLensCam", "AuxStereoCam", "AuxKit", "AuxShelf"]
+               "AuxStereoCamera", "AuxGadget", "AuxLensCam", "AuxStereoCam", "AuxKit", "AuxShelf", "AuxSwitch", "AuxPanel"]
 FUNCTION_POOL = ["run", "AuxLoader.run", "AuxSaver.run", "step", "AuxLoader.step", "AuxSaver.step", "aux_unique"]
 SCHEMA.update({
     "AuxPolyline": dict(scal=[("name", "s"), ("coordinates", "lf2")], refs=[], chain=["AuxPolylineMappingDAO"],
@@ -505,6 +536,14 @@ SCHEMA.update({
     # JSON columns with same-named value classes from two modules
     "AuxShelf": dict(scal=[("name", "s"), ("outline", "xg"), ("lid", "xs"), ("bins", "lxs"), ("plates", "lxg")], refs=[],
                      chain=["AuxShelfDAO"]),
+    # every scalar column kind, plain and Optional (None / falsy / truthy values)
+    "AuxSwitch": dict(scal=[("label", "s"), ("enabled", "b"), ("level", "i"), ("gain", "f"), ("mode", "xenum"),
+                            ("frame_type", "xtype"), ("opt_label", "os"), ("opt_enabled", "ob"), ("opt_level", "oi"),
+                            ("opt_gain", "of"), ("opt_mode", "oxenum"), ("notes", "ls0")],
+                      refs=[], chain=["AuxSwitchDAO"]),
+    "AuxPanel": dict(scal=[], refs=[R("switches", "many", "AuxSwitch", False, "AuxPanelDAO", lens=[1, 2, 2, 3]),
+                                    R("master", "one", "AuxSwitch", True, "AuxPanelDAO")],
+                     chain=["AuxPanelDAO"]),
     "AuxWorkbench": dict(scal=[("label", "s")],
                          refs=[R("devices", "many", "AuxDevice", False, "AuxWorkbenchDAO", lens=[1, 2, 3, 4]),
                                R("primary", "one", "AuxDevice", True, "AuxWorkbenchDAO")],
@@ -597,6 +636,7 @@ _STRS = ["", "a", "b", "Ab9", "torso_1"]
 _FLOATS = [0.0, 1.0, -2.5, 3.25, 1e10, 0.1]
 _INTS = [0, 1, -3, 7, 123456789]
 _TYPES = ["Position", "Position4D", "Orientation", "Pose"]
+_AUX_TYPES = ["AuxFrame", "AuxTag", "AuxWaypoint"]
 
 
 def enc(v: Any) -> str:
@@ -717,7 +757,7 @@ def _dec(s: str, ex):
         return body, rest
     if c == "e":
         cn, mn = body.split(".")
-        return getattr(ex, cn)[mn], rest
+        return (getattr(ex, cn, None) or getattr(sys.modules[AUX_MODULE], cn))[mn], rest
     if c == "u":
         return _uuid.UUID(hex=body), rest
     if c == "F":  # a function of the auxiliary module, by qualified name
@@ -726,7 +766,7 @@ def _dec(s: str, ex):
             target = getattr(target, part)
         return target, rest
     if c == "T" or c == "P":
-        cls = getattr(ex, body)
+        cls = getattr(ex, body, None) or getattr(sys.modules[AUX_MODULE], body)
         return (cls if c == "T" else cls()), rest
     raise ValueError(f"cannot decode scalar {s!r}")
 
@@ -742,6 +782,24 @@ def gen_scalar(rng, kind: str):
         return rng.choice(_INTS)
     if kind == "s":
         return rng.choice(_STRS)
+    if kind == "b":
+        return rng.choice([False, True])
+    if kind == "ob":
+        return rng.choice([None, False, False, True])
+    if kind == "oi":
+        return rng.choice([None, 0, 0] + _INTS)
+    if kind == "os":
+        return rng.choice([None, "", ""] + _STRS)
+    if kind == "xenum":
+        return ("xenum", rng.choice(["OFF", "OFF", "ON", "AUTO"]))
+    if kind == "oxenum":
+        return rng.choice([None, ("xenum", "OFF"), ("xenum", "OFF"), ("xenum", "ON"), ("xenum", "AUTO")])
+    if kind == "xtype":
+        return ("type", rng.choice(_AUX_TYPES))
+    if kind == "oxtype":
+        return rng.choice([None, None] + [("type", t) for t in _AUX_TYPES])
+    if kind == "ls0":  # a list of strings that may hold the empty string
+        return [rng.choice(_STRS) for _ in range(rng.choice([0, 0, 1, 2, 3]))]
     if kind == "ls":
         return [rng.choice(_STRS[1:]) for _ in range(rng.choice([0, 0, 1, 2, 3]))]
     if kind == "li":
@@ -789,6 +847,8 @@ def enc_gen(v: Any) -> str:
     if isinstance(v, tuple):
         if v[0] == "enum":
             return f"eElement.{v[1]}"
+        if v[0] == "xenum":
+            return f"eAuxMode.{v[1]}"
         if v[0] == "json":
             return f"J{enc(v[1])}/{enc(v[2])}"
         if v[0] == "type":
@@ -979,6 +1039,7 @@ ROOT_WEIGHTS = [
     ("AuxRig", 6), ("AuxCamera", 3), ("AuxSensor", 1),
     ("AuxPipeline", 6), ("AuxJob", 2), ("AuxWorkbench", 6), ("AuxScanner", 1), ("AuxTurboScanner", 1),
     ("AuxKit", 6), ("AuxStereoCam", 2), ("AuxLensCam", 1), ("AuxShelf", 4), ("AuxStereoCamera", 1),
+    ("AuxPanel", 8),
 ]
 
 
